@@ -133,9 +133,33 @@ def evaluate(t, env, funcs=None):
                 return mp.sqrt(args[0])
             if name in _SPECIAL:
                 return _SPECIAL[name](args[0])
+            if name in ('ostat_bot', 'ostat_top'):
+                j, bag = args
+                srt = sorted(bag, reverse=(name == 'ostat_top'))
+                if not 0 <= j < len(srt):
+                    raise Undefined('order statistic index out of range')
+                return srt[j]
             if name in funcs:
                 return _num(funcs[name](*args))
             raise KeyError('no interpretation for function %s' % name)
+        if op == 'forall':
+            bv, lo, hi, body = a
+            l, h = ev(lo, local), ev(hi, local)
+            for k in range(l, h):
+                loc2 = dict(local)
+                loc2[bv.args[0]] = k
+                if not ev(body, loc2):
+                    return False
+            return True
+        if op == 'bag':
+            bv, lo, hi, body = a
+            l, h = ev(lo, local), ev(hi, local)
+            vals = []
+            for k in range(l, h):
+                loc2 = dict(local)
+                loc2[bv.args[0]] = k
+                vals.append(ev(body, loc2))
+            return tuple(vals)
         if op in ('sum', 'bmax', 'bmin'):
             bv, lo, hi, body = a
             l, h = ev(lo, local), ev(hi, local)
